@@ -141,6 +141,22 @@ pub fn run(env: &Env) -> PropRun {
     let mut parts = vec![];
     let es = enum_states();
     parts.push(run_part(env, "enum-states", es.len(), true, "2 sizes x 3 limits x 18 state setters (each mode, margins, tabs, charsets, pens, saved contexts on both screens, alternate screen, scrollback, wrap-pending, everything at once) x 18 partial sequences (every non-ground parser state) + resize variants", &|i| es.get(i).cloned(), &j));
+    // the scrollback configuration must survive the reset: large limits, a flood afterwards
+    {
+        let mut big: Vec<Case> = vec![];
+        for (k, limit) in [Some(20_000usize), Some(100_001), Some(12_000), None].into_iter().enumerate() {
+            for alt in [false, true] {
+                let mut c = Case::new(3, 2, limit);
+                c.calls.push(Call::FeedStr(format!("old\r\n{}", if alt { "\x1b[?1049h" } else { "" })));
+                let n = limit.map(|l| l + l / 5 + 11).unwrap_or(30_000);
+                let unit = ["\n", "ab\r\n", "x\n"][k % 3];
+                c.tail = vec![unit.repeat(n / 2), unit.repeat(n / 2), "z\n".into(), "\x1b[?1049h\x1b[?1049l".into()];
+                big.push(c);
+            }
+        }
+        let jb = |c: &Case, t: &mut Tally| judge("", c, t);
+        parts.push(run_part(env, "enum-large-limits", big.len(), true, "limits {12 000, 20 000, 100 001, unlimited} x RIS on the primary / alternate screen, then a flood of limit + 20 % lines in two calls: lines() must evolve like a fresh terminal's", &|i| big.get(i).cloned(), &jb));
+    }
     parts.push(random_part(env, "random-histories", env.tier.scale(40_000, 40), &gen_case, &j));
     PropRun {
         parts,
